@@ -196,6 +196,24 @@ static void family_grid(int maxdigits) {
     printf("S grid %ld %ld\n", evals, nontriv);
 }
 
+/* ---------- family B2: every spelling of the exponent field: sign written or not, e / E, zero padding of any width ---------- */
+static void family_expspell(void) {
+    static const char *mant[] = { "1", "2.5", "-7.25", ".5", "15." };
+    static const int pads[] = { 0, 1, 2, 3, 5, 7, 8, 9, 10, 11, 12, 14, 20, 40 };
+    long evals = 0, nontriv = 0, idx = 0; int mi, ex, pi, sp, up;
+    for (mi = 0; mi < 5; mi++) for (ex = -330; ex <= 310; ex++) for (pi = 0; pi < 14; pi++) for (sp = 0; sp < 2; sp++) for (up = 0; up < 2; up++, idx++) {
+        char s[96], z[48]; int a = ex < 0 ? -ex : ex;
+        if (idx % NW != WK) continue;
+        if (sp && ex < 0) continue;                 /* sp: write the plus sign of a non-negative exponent */
+        if (up && (pi % 3)) continue;
+        memset(z, '0', (size_t) pads[pi]); z[pads[pi]] = 0;
+        snprintf(s, sizeof s, "%s%c%s%s%d", mant[mi], up ? 'E' : 'e', ex < 0 ? "-" : (sp ? "+" : ""), z, a);
+        evals++; check_text("exponent-spelling", s, &nontriv);
+        if ((ex % 10) == 0) { char t[112]; snprintf(t, sizeof t, "%s(%d)", s, 3 + pi); evals++; check_text("exponent-spelling-su", t, &nontriv); }
+    }
+    printf("S exponent-spelling %ld %ld\n", evals, nontriv);
+}
+
 /* ---------- exact decimal strings ---------- */
 /* exact decimal expansion of |x|: integer part in ip, fraction (1100 digits) in fp */
 static void exact_dec(double x, char *ip, char *fp) {
@@ -443,6 +461,7 @@ int main(int argc, char **argv) {
     fesetround(FE_TONEAREST);
     if (!*only || strstr(only, "accept")) family_accept(getenv("NUM_ACCEPT_LEN") ? atoi(getenv("NUM_ACCEPT_LEN")) : (THOROUGH ? 8 : 6));
     if (!*only || strstr(only, "grid")) family_grid(getenv("NUM_GRID_DIGITS") ? atoi(getenv("NUM_GRID_DIGITS")) : (THOROUGH ? 5 : 3));
+    if (!*only || strstr(only, "expspell")) family_expspell();
     if (!*only || strstr(only, "ties")) family_ties();
     if (!*only || strstr(only, "format")) family_format();
     printf("D %ld\n", nviol);
